@@ -71,6 +71,7 @@ class Share:
         self.N = set(N)
         self.natives = set(natives)     # scalar kinds a format dialect declares as pass-through
         self.ref = Ref(fam)
+        self.tv_bind = {}
 
     def ident(self, t):
         s = tast.strip(t)
@@ -82,10 +83,14 @@ class Share:
         if k == "union":
             return all(self.ident(m) for m in s[1])
         if k == "tv":
+            if s[1] in self.tv_bind:
+                return self.ident(self.tv_bind[s[1]])
             df = self.fam.defs[s[1]]
             if df.get("constraints"):
                 return all(self.ident(c) for c in df["constraints"])
-            return df.get("bound") is None
+            if df.get("bound") is not None:
+                return self.ident(df["bound"])
+            return True
         if k == "seq":
             return origin_of(s) in self.N and self.ident(s[2])
         if k == "map":
@@ -113,6 +118,25 @@ class Share:
         elif k == "dc":
             for f in self.fam.dc_fields(s[1]):
                 self.predict(f["t"], getattr(v, f["n"]), out)
+        elif k == "gdc":
+            saved = dict(self.tv_bind)
+            self.tv_bind.update(dict(zip(self.fam.defs[s[1]].get("generic", ()), s[2])))
+            self.ref.tv_bind = dict(self.tv_bind)
+            try:
+                for f in self.fam.dc_fields(s[1]):
+                    self.predict(f["t"], getattr(v, f["n"]), out)
+            finally:
+                self.tv_bind = saved
+                self.ref.tv_bind = dict(saved)
+        elif k == "tv":
+            if s[1] in self.tv_bind:
+                self.predict(self.tv_bind[s[1]], v, out)
+            else:
+                df = self.fam.defs[s[1]]
+                if df.get("constraints"):
+                    self.predict(("union", tuple(df["constraints"])), v, out)
+                elif df.get("bound") is not None:
+                    self.predict(df["bound"], v, out)
         elif k == "opt":
             self.predict(s[1], v, out)
         elif k == "union":
